@@ -26,3 +26,11 @@ Definition of_res {T} (f : T -> sexp) (r : res T) : sexp :=
   | Err c => L [A 1; A (errclass_code c)]
   | Panic => L [A 2]
   end.
+
+(* verdict only: the error class is not part of the observation *)
+Definition of_res0 {T} (f : T -> sexp) (r : res T) : sexp :=
+  match r with
+  | Ok a => L [A 0; f a]
+  | Err _ => L [A 1]
+  | Panic => L [A 2]
+  end.
